@@ -73,11 +73,14 @@ claim("C20", "S (symfield)", "the real generic ipa_prove / ipa_verify (source fi
       "VERY NARROW, last clause of C20 only: the inner-product argument of the aggregator crate for n = 1, 2, 4, 8 (thorough to 128): completeness for all scalars/bases/challenges, the verifier's check equals the textbook identity, both verdict branches, transcript order (every element absorbed before the challenge that depends on it), every proof element / claimed value / base enters the decided element linearly with a non-zero coefficient. NOT covered: the in-circuit verifier, accumulator agreement, aggregated proofs (10^5-10^6 rows over emulated curve arithmetic).",
       "Trusted: SymG/SymF models, msm_best replaced by its contract sum(bases[i]*coeffs[i]) (its control flow concretises every scalar; equality of real and shimmed compilations validated at concrete values every run). Outside: knowledge soundness, random-oracle step, light_fiat_shamir, light_self_emulation.", "DESIGN 3 C20, 8.8")
 
+claim("C17", "S (symfield) + K (Kani)", "the real unsafe_setup / downsize / g_to_lagrange / best_fft executed on the symbolic pairing engine with a symbolic toxic waste, identities normalised and decided by z3 || cvc5; Kani/CBMC harnesses of the real VerifyingKey / ZkStdLibArch write and read on symbolic buffers (toy field, symmetric stub commitments), from_parts with Blake2b as a recording oracle",
+      "NARROW: (a) parameters downsized to k' equal parameters set up for k' from the same secret (g, g_lagrange, s_g2) for k <= 4 (thorough 6), k' <= k, pools {1,4} (thorough {1,2,3,8,16}); (b) write(read(b)) reproduces the consumed prefix and read(write(key)) is accepted with the same k and commitments, for all buffers <= 11 bytes, formats Processed and RawBytes; architecture descriptor round trip over all 2^19 descriptors; bytes_length = bytes written; (c, thorough) the transcript identity hashes every byte write emits. NOT covered: determinism under parallelism (thread schedules), whole key-generation runs, proving keys, real curve-point encodings, 'produces and accepts the same proofs'.",
+      "Trusted: SymE/SymF models, Kani/CBMC, the toy environment (F_97, 1 fixed + 1 permutation column, stub commitments). Outside: listed above and in evidence.", "DESIGN 3 C17, 4")
+
 NA = {
     "C08": "placeholder",
     "C09": "not applicable to solver-based checking: a non-interference property of the whole synthesis path whose witness generation concretises at every step (DESIGN 3 C09); assumed and spot-checked by engine C",
     "C13": "not applicable: the pairing is entirely blst C/assembly behind FFI; no Rust arithmetic to encode (DESIGN 3 C13)",
-    "C17": "not applicable: quantifies over thread schedules and whole key-generation runs through blst MSM/FFT; nothing symbolic to decide (DESIGN 3 C17)",
 }
 
 import sys
